@@ -199,3 +199,57 @@ theorem fixed_mixed_ok :
   decide
 
 end Orbit.Repl.Ex
+
+namespace Orbit.Repl.Ex
+
+/-! ## known finding K2: a retried fetch that never returns withholds what later requests fetched -/
+
+/-- two independent branches: `1 ← 2` (nobody serves 1 any more) and `5 ← 6` (entirely available) -/
+def netK : Nat → Info := fun h =>
+  match h with
+  | 2 => { links := [1] }
+  | 6 => { links := [5] }
+  | _ => { links := [] }
+
+/-- request 1 (context 1) for head 2 is cancelled while 1 is being fetched: 2 is merged, 1 goes to the
+retry list. Request 2 (context 2, never cancelled) asks for the same head and the newer head 6: it
+re-queues 1 under its own context; the fetch of 1 does not return; 6 and 5 are fetched. -/
+def wedgeHistory : List Act :=
+  [.load 1 [2], .acquire 0, .fetched 0, .finish 0, .acquire 0, .cancel 1, .fetchFail 0, .deliver,
+   .load 2 [2, 6], .acquire 0, .acquire 1, .fetched 1, .finish 1, .acquire 1, .fetched 1, .finish 1]
+
+def wedged : St := run netK s0 wedgeHistory
+
+theorem wedged_eq : wedged =
+    { log := [2], tasks := [(5, .fetched), (6, .fetched), (1, .fetching), (2, .fetched)], queue := [], failed := [],
+      buffer := [6, 5], sem := 1, inProgress := 1, workers := [⟨2, 1, .fetching⟩], cancelled := [1],
+      pending := [] } := by
+  unfold wedged wedgeHistory; rfl
+
+/-- **K2**: in that state 6 and 5 are fetched and buffered but not handed to the store, and no move of
+the replicator or of the store other than the return of the hung fetch changes anything: the store
+never sees them while the block of 1 stays unavailable -/
+theorem hung_retry_withholds (a : Act) (h1 : a ≠ .fetched 0) (h2 : a ≠ .fetchFail 0)
+    (h3 : ∀ c hs, a ≠ .load c hs) (h4 : ∀ c, a ≠ .cancel c) :
+    step netK wedged a = wedged := by
+  rw [wedged_eq]
+  cases a with
+  | load c hs => exact absurd rfl (h3 c hs)
+  | cancel c => exact absurd rfl (h4 c)
+  | acquire i => cases i <;> rfl
+  | fetched i =>
+    cases i with
+    | zero => exact absurd rfl h1
+    | succ n => rfl
+  | finish i => cases i <;> rfl
+  | fetchFail i =>
+    cases i with
+    | zero => exact absurd rfl h2
+    | succ n => rfl
+  | deliver => rfl
+
+/-- once the block is served the fetch returns and everything arrives -/
+theorem wedge_ends_when_the_block_is_served :
+    (drain netK 40 wedged).log = [2, 6, 5, 1] ∧ quiescent (drain netK 40 wedged) = true := by decide
+
+end Orbit.Repl.Ex
